@@ -1,3 +1,20 @@
+    "C05": dict(
+        category="proof",
+        text="Theorems (every depth, both runners): executing a nested graph as a node IS translating the addressed inputs to the inner "
+             "names (C06), running the inner graph, and translating its (selected) outputs back; errors surface unchanged, a pause gets the "
+             "wrapper's name prefixed; the executor does not read the outer state. INLINING: on the dataflow equations of C01, whenever "
+             "the wrapper's inputs are present, the solutions of the nested system and of the flat system (wrapper replaced by the inner "
+             "nodes) coincide (C05_inlining_equations / _converse / _values); on runs of the engine model, a COMPLETED run of a graph "
+             "containing a GraphNode (Nested.exec_ng, no renames, exposing all inner outputs) and a COMPLETED run of the flat graph return "
+             "the same values, for either runner on the outer, inner and flat runs, any budgets and node orders (C05_inlining_runs; "
+             "hypotheses instantiated in C05_inlining_example). Renames at the boundary: C05_boundary_inputs/_outputs. Inner selections, "
+             "inner/outer/double bindings, renamed wrappers combined with inlining, depth 1-3 and repeated runs with mutated defaults are "
+             "decided on generated nestings (flat vs nested input spec and values).",
+        design_ref="DESIGN.md section 5 C05",
+        note="The run-level inlining theorem is for acyclic gate-free inner graphs, identity boundary, completed runs; the other "
+             "configurations are established per generated nesting by the oracle plus the model correspondence.",
+        technique="Coq proof (GraphNode executor characterisation; inlining via uniqueness of the solution of the dataflow equations) + metamorphic oracle flat vs nested",
+    ),
 """Regenerates MANIFEST.json from the table below (kept in one place so it stays valid)."""
 import json
 from pathlib import Path
@@ -41,7 +58,7 @@ CLAIMED.update({
              "a failing step reports the same first-in-ready-order error under both; and NODE ORDER - with unique output names a run that "
              "completes under one listing of the nodes completes under every other listing in the same state, with the same calls per "
              "superstep up to order (the scheduler's derived maps, stale-decision clearing and ready list are listing-independent in every "
-             "state; effects of nodes with distinct names and disjoint outputs commute). Tied to /repo by running each generated program "
+             "state; effects of nodes with distinct names and disjoint outputs commute). WHOLE RUNS (C02_runner_independent): for every graph without interrupts a COMPLETED synchronous run IS the asynchronous run (same state, same per-superstep log), a failed one fails with the same error, a paused one pauses at the same place. Tied to /repo by running each generated program "
              "under SyncRunner, AsyncRunner with adversarial completion orders x max_concurrency, and permuted node lists.",
         design_ref="DESIGN.md section 5 C02",
         note="The partial-value inclusion on failing runs is checked by the differential oracle, not proved (known finding F-b shows it is "
@@ -63,15 +80,18 @@ CLAIMED.update({
     "C04": dict(
         category="proof",
         text="Theorems for every graph/runner/executor: a run performs at most max_iterations supersteps; COMPLETED means quiescence within the "
-             "budget, InfiniteLoopError means exactly `fuel` supersteps ran, work remains, and the carried state is the state reached. "
-             "The exact iteration counts of the schematic loop families are decided against the sequential while / do-while spec "
-             "(SpecWhile.v) on the implementation for all m<=4, N<=12, both gate kinds, both exits, budgets need-1/need/need+1.",
+             "budget, InfiniteLoopError means exactly `fuel` supersteps ran, work remains, and the carried state is the state reached; a gated "
+             "node re-runs only on a gate decision newer than its previous run (no repeated or extra pass, every reachable state of every graph). "
+             "EXACT COUNT (C04_loop_exact): the signal-synchronised loop `x := f x; while P x: x := f x` completes, for every P, f, start value, "
+             "runner and budget >= 2n, with x = f^n x0 after exactly n body runs and n gate runs (n = first n >= 1 with P false), provided "
+             "every pass changes x; instantiated (C04_loop_family_exact) with the executor and function tables the harness runs against the "
+             "implementation. Other loop shapes (direct gates, several body nodes, exit nodes, loops inside GraphNodes) are decided against "
+             "the sequential while / do-while spec (SpecWhile.v) on the implementation for all m<=4, N<=12, both gate kinds, both exits, "
+             "budgets need-1/need/need+1.",
         design_ref="DESIGN.md section 5 C04",
-        note="partial: proved are the budget theorems and 'no repeated or extra iteration' in the form C04_fresh_decision_per_pass (a re-run of a "
-             "gated node needs a gate decision newer than the node's previous run, in every reachable state of every graph); "
-             "the exact iteration-count theorems C04_L1/C04_L2 of the design are not proved in Coq (concrete instances "
-             "are, by vm_compute); the while-loop equivalence is established per generated loop by the spec oracle.",
-        technique="Coq proof (induction on fuel) + spec oracle (sequential loop) + differential correspondence",
+        note="The exact-count theorem covers the signal-synchronised two-node shape (any P, f); the other generated loop shapes have the "
+             "budget and fresh-decision theorems plus the per-loop spec oracle, not a count theorem.",
+        technique="Coq proof (induction on fuel; invariant between passes for the exact count) + spec oracle (sequential loop) + differential correspondence",
     ),
     "C05": dict(
         category="proof",
@@ -139,21 +159,25 @@ CLAIMED.update({
         technique="Coq proof (characterisation of failing supersteps and of the nested executor) + fault enumeration over nodes",
     ),
     "C12": dict(
-        category="translation_validation",
-        text="Every event stream the implementation delivers for a generated execution (nested to depth 3, sibling nested graphs, mapping nodes, "
-             "runner.map, cyclic, gated, failing, on_missing=error; both runners; sync and suspending async processors) is certified by the "
-             "checker wf_b, whose acceptance is PROVED to imply: each span opened once and closed exactly once, never closed before it is "
-             "opened, the parent of every open span still open at every point (children close before parents; nested runs inside the launching "
-             "node's span), root RunStart first and root RunEnd last with the caller-observed status. The harness additionally checks one "
-             "shutdown per top-level call, silence of rejected calls, and that a nested run is parented to the node that launched it. For "
-             "synchronous runs of flat graphs the emission itself is modelled (EventsModel.run_events, compared event by event with the real "
-             "stream, both from the calls the implementation made and from the ENGINE MODEL's own run of the program: events_of_result) and proved "
-             "well-formed for every sequence of node executions (C12_model, C12_model_run).",
+        category="proof",
+        text="CHECKER (proved sound): every event stream the implementation delivers for a generated execution (nested to depth 3, sibling "
+             "nested graphs, mapping nodes, runner.map, cyclic, gated, failing, on_missing=error; both runners; sync and suspending async "
+             "processors) is certified by wf_b, whose acceptance is PROVED to imply: each span opened once and closed exactly once, never "
+             "closed before it is opened, the parent of every open span still open at every point, root RunStart first and root RunEnd last "
+             "with the caller-observed status. EMISSION MODEL (proved accepted): the span tree of every run of the nested engine model "
+             "(EventsTree.tree_ng: node spans per superstep, NodeError for raising calls, inner / map runs under GraphNode spans; "
+             "tree_map_top for runner.map) is well shaped and its synchronous depth-first stream is accepted (C12_model_nested, "
+             "C12_model_nested_run, C12_model_top_map); EVERY schedule - any order of starting spans under running parents and ending spans "
+             "whose children are done, no superstep barrier assumed - of every well-formed span table, in particular of every model run's "
+             "table, is accepted (C12_any_schedule, C12_model_any_schedule). Tied to /repo: synchronous runs are compared EVENT BY EVENT with "
+             "the model's stream (flat: run_events / events_of_result; nested, mapped, failing, top-level map: lin_root of the tree), "
+             "asynchronous runs as span TREES up to the order within a superstep (sim). The harness additionally checks one shutdown per "
+             "top-level call, silence of rejected calls, and that a nested run is parented to the node that launched it.",
         design_ref="DESIGN.md section 5 C12",
-        note="The for-all over programs is sampled (translation validation per trace); completeness of the checker (no false rejection) is "
-             "established empirically on the unchanged tree beyond the modelled family (synchronous, flat); nested / mapped / asynchronous "
-             "emission is validated per trace, not modelled. Known finding F-d (empty map).",
-        technique="proved trace checker (Coq invariant proof over the one-pass span automaton) applied to real event logs + proved emission model for synchronous flat runs",
+        note="That the implementation's asynchronous stream IS one of the schedules is established per trace (wf_b + tree comparison), not "
+             "as a theorem about the code; cache hits, interrupts and run-time selections are outside the tree comparison (wf_b only). "
+             "Known finding F-d (empty map).",
+        technique="Coq proof (span-automaton invariants; structural induction over span trees; simulation of the concurrent span transition system by the checker) + event-by-event / tree correspondence with real event logs",
     ),
     "C13": dict(
         category="proof",
